@@ -325,7 +325,7 @@ func runCheck(prop, tier string) int {
 	for _, p := range toReplay {
 		f := &p.g.Failure
 		mf := modelFile{Property: prop, Harness: p.h.Name, Pkg: p.h.Pkg, Entry: p.h.Entry, Kind: f.Kind, Label: f.Label, Tags: f.Tags,
-			Model: f.Model, Choices: f.Choices, Params: paramsFor(p.h, tier), Trace: f.Trace, Sched: f.Sched, Files: p.h.Files}
+			Model: f.Model, Choices: f.Choices, Params: paramsFor(p.h, tier), Trace: f.Trace, Sched: f.Sched, SchedOrder: f.SchedOrder, Files: p.h.Files}
 		if mf.Model == nil {
 			mf.Model = map[string]uint64{}
 		}
